@@ -113,6 +113,46 @@ def roles_of(v, env):
     return None
 
 
+def float_out_buffers(ctx, chk, q=None, rule="R13.9"):
+    """A true division that writes into an `out=` buffer needs a FLOAT buffer whatever the dtype of the replicates: `np.zeros_like(x)` /
+    `np.full_like(x, fill)` take x's dtype, and for integer-valued replicates (counts, discrete metrics - inside the quantifier) numpy refuses
+    to cast the float quotient into them (UFuncTypeError).  Accepted: np.zeros / ones / empty / full (float by default) without an integer
+    dtype, and any *_like(..., dtype=<float type>); a name is followed to its binding in the same function."""
+    import ast
+    q = q or Q
+    fi = ctx.db.function(q)
+    FLOATS = {"float", "np.float64", "numpy.float64", "np.double", "np.float_", "np.longdouble", "'float64'", "'float'", '"float64"', '"float"', "'f8'", "'d'"}
+
+    def float_buffer(e, depth=0):
+        if isinstance(e, ast.Name) and depth < 3:
+            binds = [n.value for n in ast.walk(fi.node) if isinstance(n, ast.Assign) and len(n.targets) == 1 and isinstance(n.targets[0], ast.Name) and n.targets[0].id == e.id]
+            return bool(binds) and all(float_buffer(b, depth + 1) for b in binds)
+        if isinstance(e, ast.Call) and isinstance(e.func, ast.Attribute) and isinstance(e.func.value, ast.Name) and e.func.value.id in ("np", "numpy"):
+            dt = next((ast.unparse(k.value) for k in e.keywords if k.arg == "dtype"), None)
+            if e.func.attr in ("zeros", "ones", "empty", "full"):
+                return dt is None or dt in FLOATS
+            if e.func.attr in ("zeros_like", "ones_like", "empty_like", "full_like"):
+                return dt in FLOATS
+        return False
+    n = 0
+    for c in [x for x in ast.walk(fi.node) if isinstance(x, ast.Call)]:
+        src = ast.unparse(c.func)
+        if src not in ("np.divide", "np.true_divide", "numpy.divide", "numpy.true_divide"):
+            continue
+        out = next((k.value for k in c.keywords if k.arg == "out"), None)
+        if out is None:
+            continue
+        n += 1
+        inst = "%s:divide@%s" % (q.split(".")[-1], ast.unparse(out)[:40])
+        if float_buffer(out):
+            chk.hold(rule, inst, "the quotient is written into a float buffer", nontrivial=False)
+        else:
+            chk.violation(rule, q, inst, "np.divide(..., out=%s): the buffer takes the dtype of its template" % ast.unparse(out)[:80],
+                          "a float buffer (dtype=float): integer-valued replicates are inside the quantifier and numpy refuses to cast the float quotient into an integer buffer",
+                          "%s:%d" % (fi.module.relpath, c.lineno))
+    return n
+
+
 def inputs_untouched(ctx, chk, f):
     """R13.8 the caller's replicate array, estimate and alpha are read-only in every branch (limits of a second call on the same replicates are the documented ones too)."""
     from ..evalr import storage_root
@@ -150,6 +190,8 @@ def run(ctx, chk, tier):
     chk.assumptions = ["ordering / nesting / range corollaries are mathematics over the verified formula and are not separately decided"]
     f = ctx.fn(Q)
     inputs_untouched(ctx, chk, f)
+    if float_out_buffers(ctx, chk) < 1:
+        chk.unknown("R13.9", "no guarded division with an out= buffer found in bootstrap_ci (the acceleration quotient)")
     # ---------------- quantile
     outs = ctx.explore(lambda: ctx.ev.call(f, [TH, HAT, AL], {"method": Const("quantile")}), chk)
     rets = returns(outs)
